@@ -14,16 +14,17 @@ Section Match.
   Hypothesis find_some : forall n l a, find n l = Some a -> In a l /\ name a = n.
   Hypothesis find_in : forall l a, NoDup (map name l) -> In a l -> find (name a) l = Some a.
   Variable R : A -> A -> bool.
-  Hypothesis R_sym : forall a b, R a b = true -> R b a = true.
+  Variable P : A -> Prop.
+  Hypothesis R_sym : forall a b, P a -> P b -> R a b = true -> R b a = true.
 
   Definition all_matched (l1 l2 : list A) : bool :=
     forallb (fun a => match find (name a) l2 with Some b => R a b | None => false end) l1.
 
   Lemma all_matched_sym l1 l2 :
-    NoDup (map name l1) -> NoDup (map name l2) -> length l1 = length l2 ->
+    NoDup (map name l1) -> NoDup (map name l2) -> Forall P l1 -> Forall P l2 -> length l1 = length l2 ->
     all_matched l1 l2 = true -> all_matched l2 l1 = true.
   Proof.
-    unfold all_matched. intros N1 N2 Hl H. rewrite forallb_forall in H.
+    unfold all_matched. intros N1 N2 P1 P2 Hl H. rewrite forallb_forall in H. rewrite Forall_forall in P1, P2.
     assert (Hincl : incl (map name l1) (map name l2)).
     { intros n Hn. apply in_map_iff in Hn. destruct Hn as [a [<- Ha]]. specialize (H a Ha).
       destruct (find (name a) l2) as [b|] eqn:E; [|discriminate]. destruct (find_some _ _ _ E) as [Hb Hnb].
@@ -34,7 +35,7 @@ Section Match.
     assert (Hn : In (name b) (map name l1)) by (apply Hincl2; apply in_map; exact Hb).
     apply in_map_iff in Hn. destruct Hn as [a [Ena Ha]].
     rewrite <- Ena. rewrite (find_in l1 a N1 Ha).
-    specialize (H a Ha). rewrite Ena in H. rewrite (find_in l2 b N2 Hb) in H. apply R_sym. exact H.
+    specialize (H a Ha). rewrite Ena in H. rewrite (find_in l2 b N2 Hb) in H. apply R_sym; [exact (P1 a Ha)|exact (P2 b Hb)|exact H].
   Qed.
 
   (* the fields both lists declare are related: for lists that need not have the same names *)
@@ -42,13 +43,13 @@ Section Match.
     forallb (fun b => match find (name b) l1 with Some a => R a b | None => true end) l2.
 
   Lemma common_related_sym l1 l2 :
-    NoDup (map name l1) -> NoDup (map name l2) ->
+    NoDup (map name l1) -> NoDup (map name l2) -> Forall P l1 -> Forall P l2 ->
     common_related l1 l2 = true -> common_related l2 l1 = true.
   Proof.
-    unfold common_related. intros N1 N2 H. rewrite forallb_forall in H. apply forallb_forall. intros a Ha.
+    unfold common_related. intros N1 N2 P1 P2 H. rewrite forallb_forall in H. rewrite Forall_forall in P1, P2. apply forallb_forall. intros a Ha.
     destruct (find (name a) l2) as [b|] eqn:E; [|reflexivity].
     destruct (find_some _ _ _ E) as [Hb Hnb]. specialize (H b Hb). rewrite Hnb in H.
-    rewrite (find_in l1 a N1 Ha) in H. apply R_sym. exact H.
+    rewrite (find_in l1 a N1 Ha) in H. apply R_sym; [exact (P1 a Ha)|exact (P2 b Hb)|exact H].
   Qed.
 End Match.
 
@@ -65,16 +66,26 @@ Proof.
 Qed.
 
 Definition argdef_ok (ig : bool) (p n : argdef) : bool :=
-  types_equal (ad_type p) (ad_type n) && (ig || values_equal (ad_default p) (ad_default n)).
+  types_equal (ad_type p) (ad_type n) && (ig || values_equal (ad_default p) (ad_default n)) &&
+  dirlists_equal (ad_dirs p) (ad_dirs n).
 
 Lemma merge_argdef_is_ok ig p n : is_ok (merge_argdef ig p n) = argdef_ok ig p n.
 Proof.
   unfold merge_argdef, argdef_ok. destruct (types_equal (ad_type p) (ad_type n)); cbn [negb andb]; [|reflexivity].
-  destruct ig; cbn [negb andb orb]; [reflexivity|]. destruct (values_equal (ad_default p) (ad_default n)); reflexivity.
+  destruct ig; cbn [negb andb orb].
+  - destruct (dirlists_equal (ad_dirs p) (ad_dirs n)); reflexivity.
+  - destruct (values_equal (ad_default p) (ad_default n)); cbn [negb andb]; [|reflexivity].
+    destruct (dirlists_equal (ad_dirs p) (ad_dirs n)); reflexivity.
 Qed.
 
-Lemma argdef_ok_sym ig p n : argdef_ok ig p n = true -> argdef_ok ig n p = true.
-Proof. unfold argdef_ok. rewrite types_equal_sym, values_equal_sym. auto. Qed.
+Lemma argdef_ok_sym ig p n : args_wf (ad_dirs p) -> args_wf (ad_dirs n) -> argdef_ok ig p n = true -> argdef_ok ig n p = true.
+Proof.
+  unfold argdef_ok. intros Dp Dn H. apply andb_prop in H. destruct H as [H Hd].
+  rewrite types_equal_sym, values_equal_sym, H. exact (dirlists_equal_sym _ _ Dp Dn Hd).
+Qed.
+
+(* argument definitions with distinct names whose applied directives have distinct argument names *)
+Definition adwf (l : list argdef) : Prop := NoDup (map ad_name l) /\ Forall (fun a => args_wf (ad_dirs a)) l.
 
 Definition argdefs_ok (ig : bool) (l1 l2 : list argdef) : bool :=
   Nat.eqb (length l1) (length l2) && all_matched argdef ad_name find_arg (argdef_ok ig) l1 l2.
@@ -85,12 +96,12 @@ Proof.
   rewrite res_map_ok. apply forallb_ext'. intros a. destruct (find_arg (ad_name a) l2); [apply merge_argdef_is_ok|reflexivity].
 Qed.
 
-Lemma argdefs_ok_sym ig l1 l2 : NoDup (map ad_name l1) -> NoDup (map ad_name l2) ->
+Lemma argdefs_ok_sym ig l1 l2 : adwf l1 -> adwf l2 ->
   argdefs_ok ig l1 l2 = true -> argdefs_ok ig l2 l1 = true.
 Proof.
-  unfold argdefs_ok. intros N1 N2 H. apply andb_prop in H. destruct H as [Hl Hm]. apply Nat.eqb_eq in Hl.
+  unfold argdefs_ok. intros [N1 D1] [N2 D2] H. apply andb_prop in H. destruct H as [Hl Hm]. apply Nat.eqb_eq in Hl.
   apply andb_true_intro. split; [apply Nat.eqb_eq; lia|].
-  apply (all_matched_sym argdef ad_name find_arg find_arg_Some find_arg_In_nodup (argdef_ok ig) (argdef_ok_sym ig) l1 l2 N1 N2 Hl Hm).
+  apply (all_matched_sym argdef ad_name find_arg find_arg_Some find_arg_In_nodup (argdef_ok ig) (fun a => args_wf (ad_dirs a)) (argdef_ok_sym ig) l1 l2 N1 N2 D1 D2 Hl Hm).
 Qed.
 
 (* ---------- fields ---------- *)
@@ -107,7 +118,7 @@ Proof.
 Qed.
 
 (* a field whose arguments have distinct names and whose applied directives have distinct argument names *)
-Definition fwf (f : fielddef) : Prop := wf_field f /\ args_wf (fd_dirs f).
+Definition fwf (f : fielddef) : Prop := adwf (fd_args f) /\ args_wf (fd_dirs f).
 
 Lemma field_ok_sym f g : fwf f -> fwf g -> field_ok f g = true -> field_ok g f = true.
 Proof.
@@ -248,6 +259,9 @@ Proof.
     apply Nat.eqb_eq in El. assert (El' : Nat.eqb (length (df_fields n)) (length (df_fields p)) = true) by (apply Nat.eqb_eq; lia).
     rewrite El'. cbn [negb].
     match type of H with is_ok (bind ?r _) = true => assert (Hr : is_ok r = true) by (destruct r; [reflexivity|discriminate|discriminate]) end.
+    assert (Hd : dirlists_equal (df_dirs p) (df_dirs n) = true).
+    { match type of H with is_ok (bind ?r _) = true => destruct r; cbn [bind] in H; try discriminate end.
+      destruct (dirlists_equal (df_dirs p) (df_dirs n)); [reflexivity|discriminate]. }
     rewrite res_map_ok in Hr.
     assert (Hm : all_matched fielddef fd_name find_field field_ok (df_fields p) (df_fields n) = true).
     { unfold all_matched. erewrite forallb_ext'; [exact Hr|]. intros f. cbn beta.
@@ -256,16 +270,21 @@ Proof.
     match goal with |- is_ok (bind ?r _) = true => assert (Hr2 : is_ok r = true) end.
     { rewrite res_map_ok. unfold all_matched in Hm2. erewrite forallb_ext'; [exact Hm2|]. intros f. cbn beta.
       destruct (find_field (fd_name f) (df_fields p)); [apply merge_field_is_ok|reflexivity]. }
-    match goal with |- is_ok (bind ?r _) = true => destruct r; [reflexivity|discriminate|discriminate] end.
+    match goal with |- is_ok (bind ?r _) = true => destruct r; try discriminate end. cbn [bind].
+    rewrite (dirlists_equal_sym _ _ Dp Dn Hd). reflexivity.
   - (* union *)
     unfold merge_unions in *. destruct (slices_equivalent (df_members p) (df_members n)) eqn:E; [|discriminate].
-    rewrite (slices_equivalent_sym _ _ Mp Mn E). reflexivity.
+    destruct (dirlists_equal (df_dirs p) (df_dirs n)) eqn:Ed; cbn [negb] in H; [|discriminate].
+    rewrite (slices_equivalent_sym _ _ Mp Mn E), (dirlists_equal_sym _ _ Dp Dn Ed). reflexivity.
   - (* enum *)
     unfold merge_enums in *. rewrite Hip in H. rewrite Hin.
     destruct (Nat.eqb (length (df_enums p)) (length (df_enums n))) eqn:El; cbn [negb] in H; [|discriminate].
     apply Nat.eqb_eq in El. assert (El' : Nat.eqb (length (df_enums n)) (length (df_enums p)) = true) by (apply Nat.eqb_eq; lia).
     rewrite El'. cbn [negb].
     match type of H with is_ok (bind ?r _) = true => assert (Hr : is_ok r = true) by (destruct r; [reflexivity|discriminate|discriminate]) end.
+    assert (Hd : dirlists_equal (df_dirs p) (df_dirs n) = true).
+    { match type of H with is_ok (bind ?r _) = true => destruct r; cbn [bind] in H; try discriminate end.
+      destruct (dirlists_equal (df_dirs p) (df_dirs n)); [reflexivity|discriminate]. }
     rewrite res_map_ok in Hr.
     assert (Hm : all_matched enumval ev_name find_enum enum_ok (df_enums p) (df_enums n) = true).
     { unfold all_matched, enum_ok. erewrite forallb_ext'; [exact Hr|]. intros v. cbn beta.
@@ -288,7 +307,8 @@ Proof.
     { rewrite res_map_ok. unfold all_matched, enum_ok in Hm2. erewrite forallb_ext'; [exact Hm2|]. intros v. cbn beta.
       destruct (find_enum (ev_name v) (df_enums p)) as [w|]; [|reflexivity].
       destruct (dirlists_equal (ev_dirs v) (ev_dirs w)); reflexivity. }
-    match goal with |- is_ok (bind ?r _) = true => destruct r; [reflexivity|discriminate|discriminate] end.
+    match goal with |- is_ok (bind ?r _) = true => destruct r; try discriminate end. cbn [bind].
+    rewrite (dirlists_equal_sym _ _ Dp Dn Hd). reflexivity.
   - (* input object *)
     unfold merge_inputs in *.
     destruct (Nat.eqb (length (df_fields p)) (length (df_fields n))) eqn:El; cbn [negb] in H; [|discriminate].
